@@ -225,6 +225,61 @@ func C10(c *fw.Ctx) {
 				Expected: fmt.Sprint(want), Observed: fmt.Sprintf("%q status %d", o.Stdout, o.Status), InStdout: o.Stdout, InStderr: o.Stderr, InStatus: o.Status})
 		}
 	}
+	// (g) a literal means the same every time it is read in one process: the line `দেখাও <literal>;` three
+	// times in one interactive session (and between two other literals) answers each time as in a fresh one
+	{
+		maxd := exactDecimal(new(big.Rat).SetFloat64(math.MaxFloat64))
+		pool := []string{"0", "7", "০.৫", "3.25", "9007199254740993", "0.1", "1" + strings.Repeat("0", 400), strings.Repeat("9", 400) + ".5", maxd, maxd + "0",
+			"0." + strings.Repeat("0", 400) + "1", "1.2.3", "1.", "007", "7.0", "১২৩৪৫", "12345", "1٣"}
+		for _, l := range pool {
+			for sc := 0; sc < 3; sc++ {
+				if !c.Mine() {
+					continue
+				}
+				lit := toScript(l, sc)
+				line := model.KwPrint + " " + lit + ";\n"
+				other := model.KwPrint + " " + toScript(l, (sc+1)%3) + "0;\n"
+				fresh := h.RunRepl(line, h.Opts{})
+				for _, session := range []string{line + line + line, other + line + other + line} {
+					o := h.RunRepl(session, h.Opts{})
+					c.Eval(session, true)
+					base := fw.Replay{Mode: "repl", Program: session, CLI: true, InStdout: trunc(o.Stdout, 600), InStderr: trunc(o.Stderr, 600), InStatus: o.Status}
+					if abnormal(c, o, "repl", trunc(session, 200), base) || abnormal(c, fresh, "repl", trunc(line, 200), base) {
+						continue
+					}
+					fr, ok1 := splitPrompts(fresh.Stdout)
+					rs, ok2 := splitPrompts(o.Stdout)
+					bad := !ok1 || !ok2 || len(fr) != 2 || o.Status != 0
+					nLines := strings.Count(session, "\n")
+					if !bad && len(rs) != nLines+1 {
+						bad = true
+					}
+					if !bad {
+						li := 0
+						for _, ln := range strings.SplitAfter(session, "\n") {
+							if ln == line && rs[li] != fr[0] {
+								bad = true
+							}
+							if ln != "" {
+								li++
+							}
+						}
+						if strings.Count(o.Stderr, "Error") < strings.Count(fresh.Stderr, "Error")*strings.Count(session, line) {
+							bad = true
+						}
+					}
+					if bad {
+						r := base
+						r.Sig = "C10|repeated-literal"
+						r.What = "a literal read again in the same process is answered differently from its first reading"
+						r.Expected = fmt.Sprintf("every `%s` line answered as in a fresh session: stdout %q stderr %q", trunc(line, 60), trunc(fresh.Stdout, 80), trunc(fresh.Stderr, 80))
+						r.Observed = fmt.Sprintf("stdout %q stderr %q status %d", trunc(o.Stdout, 300), trunc(o.Stderr, 300), o.Status)
+						c.Violate(r)
+					}
+				}
+			}
+		}
+	}
 	c.Sample(map[string]string{"literal": "১7.০5", "expected_value": "17.05"})
 	c.Sample(map[string]string{"literal": "4.9406564584124654417656879286822137236505980e-324 written out as an exact decimal (binade family)", "expected_value": "min subnormal"})
 }
